@@ -26,7 +26,7 @@ fn h<T: Hash>(t: &T) -> u64 {
 
 pub fn bigint<const N: usize>(rep: &mut Report, rng: &mut Rng, args: &Args) {
     rep.config(&format!("BigInt<{N}>"));
-    let n = args.pick(60, 200);
+    let n = args.pick(60, 400);
     let mut pool: Vec<BigInt<N>> = vec![BigInt::zero(), BigInt::one()];
     for _ in 0..n {
         let l: [u64; N] = edge_limbs(rng, N).try_into().unwrap();
@@ -67,7 +67,7 @@ pub fn bigint<const N: usize>(rep: &mut Report, rng: &mut Rng, args: &Args) {
 pub fn prime_field(fc: &FC, rep: &mut Report, rng: &mut Rng, args: &Args) {
     rep.config(fc.name);
     let pf = fc.pf;
-    let n = args.pick(16, 60);
+    let n = args.pick(16, 140);
     // pool of (limbs, value); several histories per value
     let mut pool: Vec<(Vec<u64>, UInt)> = vec![];
     let mut push = |l: Vec<u64>, rep: &mut Report| {
@@ -146,7 +146,7 @@ pub fn tower<F: TowerSpec>(name: &str, rep: &mut Report, rng: &mut Rng, args: &A
     use ark_serialize::{CanonicalDeserialize, CanonicalSerialize};
     let tc = TC::<F>::new(name);
     rep.config(name);
-    let n = args.pick(8, 30);
+    let n = args.pick(8, 70);
     let mut pool: Vec<F> = vec![F::zero(), F::one(), -F::one()];
     for k in 0..n {
         let a = tc.gen_class(k as u32 + 2, rng, rep);
